@@ -21,3 +21,13 @@ open WebPkg.C20Compose
 #print axioms sign_bundle_output_verifies
 #print axioms dir_bundle_signed_verifies
 #print axioms dir_bundle_integrity_block
+open WebPkg.C20Har
+#print axioms har_error_iff
+#print axioms har_sublist
+#print axioms har_status
+#print axioms har_headers_clean
+#print axioms har_duplicates_have_variants
+#print axioms har_urls_distinct
+#print axioms har_first_kept
+#print axioms har_validated_primary
+#print axioms har_bundle_read_back
